@@ -309,6 +309,8 @@ def _weight_code_sum(codes: np.ndarray, weights: np.ndarray) -> int:
         if c == -1:
             return -1
         out += c * w
+    if codes[-1] == -1:
+        return -1
     # weight for the last code is always 1
     return out + codes[-1]
 
